@@ -21,11 +21,11 @@ SPEC = dict(
           "of multi-conformation runs, protein-sized ones included, are evaluated too. The parametric kernel theorems are instantiated: "
           "shipped_wellformed derives their hypotheses for the shipped parameter file (read as reals) from the integer facts decided on "
           "the regenerated tables. "
-          "The whole scoring phase is modelled as well (Model/Scoring.lean: calculate_pka of one conformation with everything it calls - desolvation, backbone and ion determinants, backbone reorganisation, the pair loop with angle factors, exception rules and both families of pair rules, the iterative scheme, totals, coupling penalties and the removal of determinants towards penalised groups; parameters regenerated from /repo and read back from the compiled driver); its Float instance is compared with the real calculate_pka on every distinct conformation this check runs - counts, partners and order exactly, numbers to 1e-9 (they are bit-identical on the unchanged tree). On that model, over the reals and for every structure: score_desolvation_signs (buried in [0,1], desolvation sign by charge, local term >= 0), score_backbone_dets (charge times a non-negative energy), score_ion_dets (minus the ion's charge times a Coulomb energy in [0, max]), pair_dets_from_rules, solve_dets and score_dets_from_rules: every determinant of every final record was produced by exactly one of the modelled rules - backbone, ion, a non-iterative pair rule applied to a visited pair with a Coulomb energy in range, or an iterative pair rule applied to a listed interaction that stems from a visited pair.",
+          "The whole scoring phase is modelled as well (Model/Scoring.lean: calculate_pka of one conformation with everything it calls - desolvation, backbone and ion determinants, backbone reorganisation, the pair loop with angle factors, exception rules and both families of pair rules, the iterative scheme, totals, coupling penalties and the removal of determinants towards penalised groups; parameters regenerated from /repo and read back from the compiled driver); its Float instance is compared with the real calculate_pka on every distinct conformation this check runs - counts, partners and order exactly, numbers to 1e-9 (they are bit-identical on the unchanged tree). On that model, over the reals and for every structure: score_desolvation_signs (buried in [0,1], desolvation sign by charge, local term >= 0), score_backbone_dets (charge times a non-negative energy), score_ion_dets (minus the ion's charge times a Coulomb energy in [0, max]), pair_dets_from_rules, solve_dets and score_dets_from_rules: every determinant of every final record was produced by exactly one of the modelled rules - backbone, ion, a non-iterative pair rule applied to a visited pair with a Coulomb energy in range, or an iterative pair rule applied to a listed interaction that stems from a visited pair. program_desolvation_signs (Props/ProgramScoring.lean): the scoring theorems quantify over all tables and environments, so they hold for the tables the set-up pipeline produces - for every conformation Program.run prepares, the buried fraction lies in [0, 1], desolvation has the sign of the charge and the local term is non-negative.",
     note="Kernels that are inlined in radial_volume_desolvation / backbone_reorganization are tied through stub conformations (the "
          "harness composes the kernel results in the code's order). |f_angle| <= 1 (Cauchy-Schwarz on unit vectors) is used, not proved.",
     technique="Lean 4/Mathlib proof (ordered-field reasoning over R and Q, case analysis of the pair rules) + generated-constant obligations + bitwise Float correspondence",
-    lean=["Propka.Props.C16"],
+    lean=["Propka.Props.C16", "Propka.Props.ProgramScoring"],
     rule="random kernel arguments incl. exact cut-off values and both sides of every branch; stub pairs with all charge sign combinations "
          "and model-pKa orders; iterative systems of 2-6 stub groups with tie-prone values; real runs of test files and library "
          "structures with ligands and ions; non-trivial = distinct argument tuple / system / structure with determinants",
